@@ -308,3 +308,6 @@ _patch('C18', 'level_text', 'Only this chain is decided.', 'Exit status (exitpat
 _patch('C18', 'level_note', 'exit-status mapping in Vm::run, exit(n).', 'the Exit native narrowing its argument to u16 (exit(70000), exit(-1)), process::exit in main.rs.')
 _patch('C11', 'level_text', 'and the unconditional argument unwraps of 128 native bodies', 'a Number argument narrowed to an index at the top level of a native body has passed an integrality test (generated I_ obligations; D31 list.insert / list.remove with a fractional or NaN index found and fixed); and the unconditional argument unwraps of 128 native bodies')
 _patch('C06', 'level_text', 'among them both paths of IterNext / IterCurrent', 'among them Launch (launchops unit; D30 found and fixed: the result of a callee that completes at once stayed on the stack), Map, Return and both paths of IterNext / IterCurrent')
+_patch('C03', 'level_note', 'Not decided: field numbering by the compiler vs run-time Field order,', 'Field numbering: the initialiser is compiled before the Field instructions and the methods after them (classc unit: Compiler::class), the Field instructions are emitted in the order find_known_field numbers the fields (fieldsc unit), op_field / add_field hand out slots in arrival order (ops, klass). Not decided:')
+_patch('C02', 'level_text', 'Compiler::add_capture returns the position', 'Compiler::function (funcc unit) hands the captures the child compiler collected to the Closure instruction as one CaptureIndex operand each, in the child order, which is the order op_closure reads them in. Compiler::add_capture returns the position')
+_patch('C06', 'level_note', 'A-shape', 'A-shape (discharged at the source for while / if: compilerd unit, Compiler::while_ and Compiler::if_ emit every label they jump to exactly once, exit jumps forward, Loop backward)')
